@@ -5,6 +5,7 @@ import numpy as np
 from hypothesis import strategies as st
 
 from vlib import ctxmod, models, oracle
+from vlib import trees as T
 
 PROP_ID = "C01"
 LEVEL = "exploration"
@@ -40,6 +41,14 @@ def cases(draw):
             spec["trees"][s_] = ["add", spec["trees"][s_], ["ufun", ["mul", ["const", 1], inner]]]
         spec["ufun"] = True
         spec["string_form"] = []
+    if draw(st.sampled_from([False] * 7 + [True])):
+        # an exact integer literal beyond 2**53, of either sign, in one update (x - 10**17, T - c**2*burn*dt, ...)
+        s_ = draw(st.sampled_from(spec["state"]))
+        big = ["const", T.BIG_FIRST + draw(st.integers(0, T.N_BIG - 1))]
+        term = big if draw(st.booleans()) else ["mul", big, ["sym", draw(st.sampled_from(spec["state"] + spec["control"] + [spec["dt"]]))]]
+        spec["trees"][s_] = [draw(st.sampled_from(["add", "sub"])), spec["trees"][s_], term]
+        spec["string_form"] = [x_ for x_ in spec["string_form"] if x_ != s_]
+        spec["big_literal"] = True  # (key on the case, informational)
     # one point with integer-valued states: also handed over as an integer array through State.from_data
     ip = dict(pts[0])
     for s_ in spec["state"]:
@@ -145,6 +154,8 @@ def case(spec, ctx):
         ctx.event("from_data_dtypes_checked")
     if m.get("ufun"):
         ctx.event("user_function_via_python_modules")
+    if m.get("big_literal"):
+        ctx.event("integer_literal_beyond_2**53")
 
     total = models.total_symbols(m)
     decl = m["state"] != states or m["control"] != sorted(m["control"]) or m["calib"] != sorted(m["calib"])
